@@ -29,8 +29,8 @@ ASSUMPTIONS = ["gradients are not part of the snapshot (MyGrad documents nulling
 
 
 @st.composite
-def cases(draw):
-    b = draw(history_program(max_steps=12, max_elems=12, with_fail=True))
+def cases(draw, tier="quick"):
+    b = draw(history_program(max_steps=12 if tier == "quick" else 20, max_elems=12, with_fail=True))
     r = b.ref
     live = [h for h in r.env if r.is_tensor[h] and not r.isint[h] and r.env[h].size > 0]
     nonconst = [h for h in live if not r.const[h]]
@@ -129,7 +129,7 @@ def skeleton_f(prog):
     return out
 
 
-N = {"quick": 400, "thorough": 6000}
+N = {"quick": 400, "thorough": 3000}
 
 
 def shard_plan(tier):
@@ -138,7 +138,7 @@ def shard_plan(tier):
 
 def run_shard(shard, seed, tier):
     rec = Recorder()
-    viol = drive(prop=PROPERTY, name="fail_history", strategy=cases(), check_case=lambda c: check_case(c, rec), rec=rec,
+    viol = drive(prop=PROPERTY, name="fail_history", strategy=cases(tier), check_case=lambda c: check_case(c, rec), rec=rec,
                  seed=seed, max_examples=N[tier])
     out = rec.result()
     out["violations"] = viol
